@@ -117,8 +117,8 @@ func runCLI(bin string, args []string, name string, c *Case, cli []byte, mech, h
 		return &o
 	}
 	// Which line is "the offending line"?  When the message starts with <name>:<line>:<col>: and the line
-	// is a line of the file, that line (and the position must exist); otherwise (the tool prints ":0:<col>:"
-	// for an error at the very end of the text) any line of the program text.  The line counts as shown
+	// is a line of the file, that line (and the position must exist; ":0:<col>:", which the tool printed
+	// for an error at the very end of the text, names no position and is a failure); otherwise any line of the program text.  The line counts as shown
 	// when some line of the message contains it; blanks and tabs are ignored in the comparison, so the way
 	// the tool expands tabs or decorates the line is not judged, and neither is the caret line.
 	squeeze := func(s string) string { return strings.NewReplacer(" ", "", "\t", "").Replace(s) }
@@ -142,6 +142,14 @@ func runCLI(bin string, args []string, name string, c *Case, cli []byte, mech, h
 				line, col = l, c2
 			}
 		}
+	}
+	if strings.HasPrefix(stderr, ":0:") {
+		// no file name and line 0: the tool could not place the error in any of its source files
+		o := hx.Fail("C03/cli/error-position/"+mech,
+			fmt.Sprintf("goawk reports the error at %q: no file name and line 0, which does not exist in the program text (%s)",
+				strings.SplitN(stderr, " ", 2)[0], how),
+			"<file>:<line>:<col>: of a position inside the program text (its end included)", obs, string(cli))
+		return &o
 	}
 	if line >= 1 {
 		if !validIn(c.Clt, line, col) {
